@@ -338,6 +338,45 @@ fn parse_page<'a>(page: &'a FatPage) -> (impl Iterator<Item = PageNumber> + 'a, 
     (iter, bytes)
 }
 
+/// Verification hooks (compiled only with `--cfg nomt_verif`): the private page arithmetic and what an
+/// `AsyncReader` knows about its pages. Nothing here is used by the store itself.
+#[cfg(nomt_verif)]
+pub mod verif {
+    /// Bytes of an overflow page after its header.
+    pub const BODY_SIZE: usize = super::BODY_SIZE;
+    /// Bytes of the header of an overflow page.
+    pub const HEADER_SIZE: usize = super::HEADER_SIZE;
+    /// Page numbers that fit one overflow page.
+    pub const MAX_PNS: usize = super::MAX_PNS;
+
+    /// The private `total_needed_pages`.
+    pub fn total_needed_pages(value_size: usize) -> usize {
+        super::total_needed_pages(value_size)
+    }
+
+    /// The private `needed_pages`.
+    pub fn needed_pages(size: usize) -> usize {
+        super::needed_pages(size)
+    }
+
+    impl super::AsyncReader {
+        /// The page number stored at `index` of the page list.
+        pub fn verif_page_number(&self, index: usize) -> Option<u32> {
+            self.pages.get(index).map(|(pn, _)| pn.0)
+        }
+
+        /// (known pages, request index, process index, total pages)
+        pub fn verif_progress(&self) -> (usize, usize, usize, usize) {
+            (
+                self.pages.len(),
+                self.request_index,
+                self.process_index,
+                self.total_pages,
+            )
+        }
+    }
+}
+
 #[cfg(test)]
 mod tests {
     use crate::beatree::leaf::node::MAX_OVERFLOW_VALUE_SIZE;
